@@ -217,6 +217,15 @@ def _symmetric_by_flow(repo: Repo, chk: Check, f: Func, fl: Flow) -> bool:
         for alt in s_.state.alts:
             facts_ = [fa for fa in alt.facts.values() if fa.kind == "atom"] + [fa for fa in s_.extra if fa.kind == "atom"]
             arg = _expand(s_.node.args[0], {k: v for k, v in alt.env.items() if k not in s_.shadow})
+            # a value obtained from a helper is what the helper is known to return (`<call> is <expr>` from its outcome summary)
+            atxt = ast.unparse(norm.canon(norm.primary(arg)))
+            for fa in facts_:
+                if isinstance(fa.expr, ast.Compare) and len(fa.expr.ops) == 1 and isinstance(fa.expr.ops[0], ast.Is) and isinstance(fa.expr.left, ast.Call) \
+                        and ast.unparse(fa.expr.left) == atxt and not (isinstance(fa.expr.comparators[0], ast.Constant)):
+                    arg = fa.expr.comparators[0]
+                    # what else is known about the helper's result restates why it is not None (the helper's own conditions are facts of their own)
+                    facts_ = [x for x in facts_ if atxt not in x.text]
+                    break
             if callee_name(s_.node) != "extend":
                 adds.append((s_, facts_, ast.unparse(norm.primary(arg))))
             else:
